@@ -44,25 +44,25 @@ func (c09) Chunk(tier string) int {
 
 func (c09) Thresholds(tier string) map[string]int64 {
 	return map[string]int64{
-		"cases":                             1500,
-		"executions-in-process":             4500,
-		"executions-in-fresh-processes":     4500,
-		"fresh-processes-spawned":           90,
-		"unrelated-runners-run-before":      5000,
-		"traces-with>=3-draw-sites":         800,
-		"seed:long-overflowing":             150,
-		"seed:all-zeros":                    60,
-		"seed:single-character":             60,
-		"range-draws:dice":                  30000,
-		"range-draws:random_range":          30000,
-		"range-draws:random":                15000,
-		"range:dice(1)":                     1000,
-		"range:a==b":                        1000,
-		"range:negative-lower-bound":        5000,
-		"range:span>=2^31":                  1000,
-		"range-draws-with-empty-seed":       10000,
-		"draw-hit-lower-bound":              2000,
-		"draw-hit-upper-bound":              2000,
+		"cases":                         1500,
+		"executions-in-process":         4500,
+		"executions-in-fresh-processes": 4500,
+		"fresh-processes-spawned":       90,
+		"unrelated-runners-run-before":  5000,
+		"traces-with>=3-draw-sites":     800,
+		"seed:long-overflowing":         150,
+		"seed:all-zeros":                60,
+		"seed:single-character":         60,
+		"range-draws:dice":              30000,
+		"range-draws:random_range":      30000,
+		"range-draws:random":            15000,
+		"range:dice(1)":                 1000,
+		"range:a==b":                    1000,
+		"range:negative-lower-bound":    5000,
+		"range:span>=2^31":              1000,
+		"range-draws-with-empty-seed":   10000,
+		"draw-hit-lower-bound":          2000,
+		"draw-hit-upper-bound":          2000,
 	}
 }
 
